@@ -175,7 +175,8 @@ type runner struct {
 	failMu sync.Mutex
 	fails  []core.Failure
 
-	traffic trafficStats
+	traffic    trafficStats
+	resetsSeen int // probes reset while the replaced config's tcp listener was being closed
 }
 
 func (r *runner) fail(class, what string) {
